@@ -20,11 +20,16 @@ fn fang(alg: &str, secret: String) -> JWT<P> {
     match alg { "HS256" => JWT::<P>::new_256(secret), "HS384" => JWT::<P>::new_384(secret), "HS512" => JWT::<P>::new_512(secret), o => panic!("harness: alg {o}") }
 }
 
+/// the configuration `getter: "x"`: the token is the value of `X-Api-Token` (`get_token_by`), and Authorization is not looked at
+fn custom(j: JWT<P>) -> JWT<P> { j.get_token_by(|req| req.headers.get("X-Api-Token"), ohkami::openapi::security::SecurityScheme::Bearer("xApiToken", None)) }
+
 pub fn run_case(c: &Value) -> Value {
     pin_clock(c["now"].as_u64().unwrap());
     let alg = c["alg"].as_str().unwrap();
     let secret = string(unhex(c["secret"].as_str().unwrap()));
-    let t = Ohkami::new((fang(alg, secret.clone()), "/".GET(who))).test();
+    let x = c["getter"].as_str() == Some("x");
+    let f = fang(alg, secret.clone());
+    let t = Ohkami::new((if x { custom(f) } else { f }, "/".GET(who))).test();
     *SEEN.lock().unwrap() = None;
     let mut issued = None;
     let auth: Option<String> = if let Some(p) = c.get("issue").filter(|v| !v.is_null()) {
@@ -34,7 +39,14 @@ pub fn run_case(c: &Value) -> Value {
         Some(format!("Bearer {token}"))
     } else { c["auth"].as_str().map(|a| string(unhex(a))) };
     let mut req = if c["method"].as_str() == Some("OPTIONS") { TestRequest::OPTIONS("/") } else { TestRequest::GET("/") };
-    if let Some(a) = auth { req = req.header("Authorization", a) }
+    if x {
+        // the same token text, where this configuration looks for it; `decoy`: a token the configuration itself issued, where it does not look
+        if let Some(a) = auth { req = req.header("X-Api-Token", a.strip_prefix("Bearer ").expect("harness: getter x needs a Bearer value").to_string()) }
+        if c["decoy"].as_bool() == Some(true) {
+            let tok: String = fang(alg, string(unhex(c["secret"].as_str().unwrap()))).issue(P { sub: "decoy".into(), exp: None, nbf: None, iat: None }).into();
+            req = req.header("Authorization", format!("Bearer {tok}"));
+        }
+    } else if let Some(a) = auth { req = req.header("Authorization", a) }
     let status = rt().block_on(async { t.oneshot(req).await.status().code() });
     let seen = SEEN.lock().unwrap().take();
     json!({"ran": seen.is_some(), "status": status, "seen": seen.map(|s| serde_json::from_str::<Value>(&s).unwrap()), "issued": issued.map(|t| hex(t.as_bytes()))})
